@@ -70,19 +70,99 @@ theorem fill_aux (n : Nat) (f : Nat → Int) (m : Nat) (hmn : m ≤ n) :
     rw [hrep, List.set_cons_zero]
     simp
 
-theorem constructBuf_eq (n : Nat) (mem : List Int) (off stride : Int) (shape : Nat) :
-    constructBuf n mem off stride shape = construct n ((List.range shape).map (bufEntry mem off stride)) := by
-  unfold constructBuf construct
-  rw [fill_aux n _ (min n shape) (Nat.min_le_left _ _)]
+/-! ### byte addresses -/
+
+/-- Byte addressing finds the cell: the byte address `ptr + j*stride` of entry `j` of a buffer that shows the cells
+    `off, off+step, …` of an object with records of any size `rsz > 0` is where cell `off + j*step` starts. -/
+theorem cellAt_entryAddr (m : MemLay) (hr : 0 < m.rsz) (off step : Int) (len j : Nat) :
+    m.cellAt (entryAddr (bufInfo m off step len) j) = some (off + (j : Int) * step) := by
+  have hne : (m.rsz : Int) ≠ 0 := by omega
+  have hz : m.rsz ≠ 0 := by omega
+  have ha : entryAddr (bufInfo m off step len) j - (m.fo : Int) = (m.rsz : Int) * (off + (j : Int) * step) := by
+    simp only [entryAddr, bufInfo, MemLay.addr]
+    rw [Int.mul_add, ← Int.mul_assoc, Int.mul_comm (j : Int) (m.rsz : Int), Int.mul_assoc]
+    omega
+  unfold MemLay.cellAt
+  rw [if_neg hz, ha, Int.mul_emod_right, if_pos rfl, Int.mul_ediv_cancel_left _ hne]
+
+/-- Addressing in whole items of `w` bytes (`ptr[i * (stride / w)]`, truncating division) is the byte address
+    `ptr + i*stride` exactly when `i = 0` or the stride is a multiple of the item size. -/
+theorem elemAddr_eq_iff (w : Nat) (hw : 0 < w) (b : BufInfo) (i : Nat) :
+    elemAddr w b i = entryAddr b i ↔ (i = 0 ∨ (w : Int) ∣ b.stride) := by
+  have hwne : (w : Int) ≠ 0 := by omega
+  unfold elemAddr entryAddr
+  constructor
+  · intro h
+    by_cases hi : i = 0
+    · exact Or.inl hi
+    · right
+      have h1 : (w : Int) * ((i : Int) * b.stride.tdiv (w : Int)) = (i : Int) * b.stride := by omega
+      have h2 : (i : Int) * ((w : Int) * b.stride.tdiv (w : Int)) = (i : Int) * b.stride := by
+        rw [← h1, ← Int.mul_assoc, ← Int.mul_assoc, Int.mul_comm (i : Int) (w : Int)]
+      have hi' : (i : Int) ≠ 0 := by omega
+      have h3 := Int.eq_of_mul_eq_mul_left hi' h2
+      exact ⟨b.stride.tdiv (w : Int), h3.symm⟩
+  · intro h
+    cases h with
+    | inl h0 => subst h0; simp
+    | inr hd =>
+      have h1 : (w : Int) * b.stride.tdiv (w : Int) = b.stride := Int.mul_tdiv_cancel' hd
+      have h2 : (w : Int) * ((i : Int) * b.stride.tdiv (w : Int)) = (i : Int) * b.stride := by
+        rw [← Int.mul_assoc, Int.mul_comm (w : Int) (i : Int), Int.mul_assoc, h1]
+      omega
+
+/-- what the buffer constructor reads for entry `i` of an accepted (aligned) buffer is the buffer's entry `i` -/
+theorem load_elemAddr (mem : List Int) (m : MemLay) (hr : 0 < m.rsz) (off step : Int) (shape i : Nat)
+    (hal : i = 0 ∨ (8 : Int) ∣ (m.rsz : Int) * step) :
+    m.load mem (elemAddr 8 (bufInfo m off step shape) i) = bufEntry mem off step i := by
+  have h := (elemAddr_eq_iff 8 (by omega) (bufInfo m off step shape) i).2 hal
+  unfold MemLay.load
+  rw [h, cellAt_entryAddr m hr]
+  rfl
+
+/-- NumPy's alignment flag implies what the buffer constructor needs: at most one entry, or a byte stride that is a
+    multiple of the item size -/
+theorem aligned_stride (m : MemLay) (off step : Int) (shape : Nat) (h : (bufInfo m off step shape).aligned 8 = true) :
+    shape ≤ 1 ∨ (8 : Int) ∣ (m.rsz : Int) * step := by
+  simp only [BufInfo.aligned, bufInfo, Bool.or_eq_true, Bool.and_eq_true, beq_iff_eq] at h
+  rcases h with h0 | ⟨_, h1 | h8⟩
+  · left; omega
+  · left; exact of_decide_eq_true h1
+  · right; exact Int.dvd_of_emod_eq_zero h8
+
+theorem constructBuf_fill (n : Nat) (mem : List Int) (m : MemLay) (b : BufInfo) :
+    constructBuf n mem m b
+      = (List.range (min n b.shape)).map (fun i => m.load mem (elemAddr 8 b i)) ++ List.replicate (n - min n b.shape) 0 := by
+  unfold constructBuf
+  exact fill_aux n _ (min n b.shape) (Nat.min_le_left _ _)
+
+theorem constructBuf_eq (n : Nat) (mem : List Int) (m : MemLay) (hr : 0 < m.rsz) (off step : Int) (shape : Nat)
+    (hal : shape ≤ 1 ∨ (8 : Int) ∣ (m.rsz : Int) * step) :
+    constructBuf n mem m (bufInfo m off step shape) = construct n ((List.range shape).map (bufEntry mem off step)) := by
+  rw [constructBuf_fill]
+  have hmap : (List.range (min n (bufInfo m off step shape).shape)).map
+        (fun i => m.load mem (elemAddr 8 (bufInfo m off step shape) i))
+      = (List.range (min n shape)).map (bufEntry mem off step) := by
+    apply List.map_congr_left
+    intro i hi
+    have hi' : i < min n shape := by simpa [bufInfo] using hi
+    apply load_elemAddr mem m hr
+    cases hal with
+    | inl h1 => left; omega
+    | inr h8 => right; exact h8
+  rw [hmap]
+  unfold construct
   rw [List.take_append, List.take_replicate, ← List.map_take, List.take_range]
-  simp only [List.length_map, List.length_range]
+  simp only [List.length_map, List.length_range, bufInfo]
   congr 1
   · congr 1
     omega
 
-theorem constructBuf_length (n : Nat) (mem : List Int) (off stride : Int) (shape : Nat) :
-    (constructBuf n mem off stride shape).length = n := by
-  rw [constructBuf_eq]; exact construct_length _ _
+theorem constructBuf_length (n : Nat) (mem : List Int) (m : MemLay) (b : BufInfo) :
+    (constructBuf n mem m b).length = n := by
+  rw [constructBuf_fill]
+  simp
+  omega
 
 theorem constructLoop_length (n : Nat) (xs : List Int) : (constructLoop n xs).length = n := by
   rw [constructLoop_eq]; exact construct_length _ _
@@ -172,8 +252,20 @@ theorem alloc_fresh (s : State) (v : List Int) : (s.alloc v).2 = s.blocks.length
 theorem alloc_blocks_length (s : State) (v : List Int) : (s.alloc v).1.blocks.length = s.blocks.length + 1 := by
   simp [State.alloc]
 
+/-- the position of entry `j` of a view, found through its byte address, is cell `off + j*step` -/
+theorem View.pos_eq (v : View) (hr : 0 < v.lay.rsz) (j : Nat) : v.pos j = (v.off + (j : Int) * v.step).toNat := by
+  unfold View.pos View.info
+  rw [cellAt_entryAddr v.lay hr]
+
+/-- … in particular for the views of vectors and plain arrays (8 bytes per cell) -/
+theorem View.pos_plain (b : Nat) (off step : Int) (len dt j : Nat) :
+    View.pos { blk := b, off := off, step := step, len := len, dt := dt } j = (off + (j : Int) * step).toNat :=
+  View.pos_eq _ (by show 0 < 8; omega) j
+
 theorem fullView_pos (b n p : Nat) : (fullView b n).pos p = p := by
-  simp [fullView, View.pos]
+  unfold fullView
+  rw [View.pos_plain]
+  simp
 
 theorem viewVals_fullView (s : State) (b : Nat) :
     s.viewVals (fullView b (s.read b).length) = s.read b := by
